@@ -12,7 +12,7 @@ LEVEL = 'exploration'
 SHARDS = {'quick': 4, 'thorough': 16}
 RULE = ('Rule-based state machine over one instance of every real cassette type (in-memory, file-based over a '
         'scratch directory, S3 over the fake bucket with key prefixes "", "p", "p/q", "pq" sharing one bucket): '
-        '(plus one S3 cassette configured with an infrequent-access threshold and a size-based sampling calculator that always keeps): save(category, data, metadata) / fetch / fetch_metadata / fetch_unknown histories; data keys are '
+        '(plus one S3 cassette configured with an infrequent-access threshold and a size-based sampling calculator that always keeps): save(category, data, metadata) / fetch / fetch_metadata / fetch_unknown / re-save (fetch a stored recording, add metadata, save it again under the same id) histories; the caller changes every metadata dict it was handed after checking it; data keys are '
         'recorder-shaped and hostile texts (quotes, backslashes, braces, separators, newlines, unicode, slashes), '
         'values and metadata from the faithful-domain generators (objects-without-aliasing and '
         'aliasing-without-list-state families, shared sub-objects across keys). Oracle: dict model id -> (keys, '
@@ -107,6 +107,22 @@ class Interp(object):
                                nontriv=len(data_desc) >= 2 and any(nonscalar(d) for _, d in data_desc),
                                family=op['family']))
 
+    def op_resave(self, op):
+        """Annotate a stored recording: fetch it, add metadata, save it again under the same id."""
+        s = self._pick(op['n'])
+        if s is None:
+            return
+        cas = self.zoo.cassettes[s['cas']]
+        if op.get('prefetch'):
+            cas.get_recording_metadata(s['id'])
+        rec = cas.get_recording(s['id'])
+        rec.add_metadata(dict((k, V.build(d)) for k, d in op['meta']))
+        cas.save_recording(rec)
+        s['meta'] = dict(s['meta'])
+        s['meta'].update(dict((k, V.build(d)) for k, d in op['meta']))
+        s['resaved'] = s.get('resaved', 0) + 1
+        self.ctx.count('resave:%s' % self.zoo.kind(cas))
+
     def _pick(self, n):
         return self.saved[n % len(self.saved)] if self.saved else None
 
@@ -136,10 +152,15 @@ class Interp(object):
         if only != s['meta']:
             raise Violation('%s: get_recording_metadata differs from the saved metadata: got %r, saved %r' % (
                 name, only, s['meta']), 'metadata-only')
+        # the caller goes on using (and changing) what it was handed; later fetches must not see that
+        only['__changed_by_caller__'] = True
+        for n, v in enumerate(list(only.values())):
+            V.mutate_in_place(v, n)
         later = self.nsaves > s['at']
         self.ctx.case(self.history, s['nontriv'] and later,
                       classes=('fetch:%s' % self.zoo.kind(cas), 'fetch:family=%s' % s['family'],
-                               'fetch:after-later-save' if later else 'fetch:latest'))
+                               'fetch:after-later-save' if later else 'fetch:latest',
+                               'fetch:resaved' if s.get('resaved') else 'fetch:saved-once'))
 
     def op_fetch_unknown(self, op):
         cas = self.zoo.cassettes[op['cas']]
@@ -171,7 +192,7 @@ unknown_ids = st.one_of(
     st.sampled_from(['nope', 'A', 'A/', 'x/y/z']))
 
 
-KINDS = ['save'] * 4 + ['fetch'] * 4 + ['unknown_fresh', 'unknown_foreign']
+KINDS = ['save'] * 4 + ['fetch'] * 4 + ['unknown_fresh', 'unknown_foreign', 'resave', 'resave']
 
 
 def make_machine(ctx):
@@ -190,6 +211,9 @@ def make_machine(ctx):
                            'meta': rec[2], 'mutate_seed': data.draw(st.integers(0, 20))})
             elif kind == 'fetch':
                 self.step({'op': 'fetch', 'n': data.draw(st.integers(0, 50))})
+            elif kind == 'resave':
+                self.step({'op': 'resave', 'n': data.draw(st.integers(0, 50)), 'prefetch': data.draw(st.booleans()),
+                           'meta': data.draw(pairs(meta_keys, V.scalars, 2))})
             elif kind == 'unknown_fresh':
                 self.step({'op': 'fetch_unknown', 'cas': data.draw(st.integers(0, NCAS - 1)), 'how': 'fresh',
                            'id': data.draw(unknown_ids)})
